@@ -28,6 +28,10 @@ class TLCResult:
         self.coverage = {}
 
 
+_IDENT = re.compile(r"[A-Za-z_][A-Za-z0-9_]*")
+_INT = re.compile(r"-?\d+")
+
+
 def parse_value(s, i=0):
     """Parse a TLA+ value printed by TLC (tuples, sets, strings, ints, booleans, records)."""
     n = len(s)
@@ -73,7 +77,7 @@ def parse_value(s, i=0):
         out = {}
         while True:
             i = ws(i)
-            m = re.match(r"[A-Za-z_][A-Za-z0-9_]*", s[i:])
+            m = _IDENT.match(s, i)
             key = m.group(0)
             i += len(key)
             i = ws(i)
@@ -97,7 +101,7 @@ def parse_value(s, i=0):
             buf.append(s[j])
             j += 1
         return "".join(buf), j + 1
-    m = re.match(r"-?\d+", s[i:])
+    m = _INT.match(s, i)
     if m:
         return int(m.group(0)), i + len(m.group(0))
     if s.startswith("TRUE", i):
